@@ -58,6 +58,8 @@ func mutexCall(w *World, c ssa.CallInstruction) (*types.Var, string) {
 	return nil, op
 }
 
+var lockDepth int
+
 func analyseLocks(w *World, fn *ssa.Function, mutex *types.Var) *lockInfo {
 	li := &lockInfo{fn: fn, at: map[ssa.Instruction]lockState{}}
 	in := map[*ssa.BasicBlock]lockState{}
@@ -70,6 +72,17 @@ func analyseLocks(w *World, fn *ssa.Function, mutex *types.Var) *lockInfo {
 			return lockState{mode: a.mode, region: nil, deferred: a.deferred && b.deferred}
 		}
 		return lockState{mode: -1}
+	}
+	// a function literal handed to a helper that calls it with the lock held (`r.withLock(func() { … })`) starts, and
+	// must end, in that state; the critical section is the one of this hand-over
+	entry := lockState{}
+	if oc, h, ic := passedVia(fn); oc != nil && lockDepth < 3 {
+		lockDepth++
+		hl := analyseLocks(w, h, mutex)
+		lockDepth--
+		if st := hl.at[ic]; st.mode > 0 {
+			entry = lockState{mode: st.mode, region: oc}
+		}
 	}
 	reported := map[string]bool{}
 	issue := func(s string) {
@@ -130,6 +143,12 @@ func analyseLocks(w *World, fn *ssa.Function, mutex *types.Var) *lockInfo {
 					st = lockState{}
 				}
 			case *ssa.Return:
+				if entry.mode != 0 {
+					if st.mode != entry.mode && record {
+						issue("return at " + w.ipos(ins) + " of a function that is called with the lock held, in a different lock state")
+					}
+					continue
+				}
 				if st.mode != 0 && record {
 					if st.mode == -1 {
 						issue("return at " + w.ipos(ins) + " with the lock held on some paths")
@@ -144,7 +163,7 @@ func analyseLocks(w *World, fn *ssa.Function, mutex *types.Var) *lockInfo {
 	}
 	// iterate to fixpoint
 	work := []*ssa.BasicBlock{fn.Blocks[0]}
-	in[fn.Blocks[0]] = lockState{}
+	in[fn.Blocks[0]] = entry
 	have[fn.Blocks[0]] = true
 	for iter := 0; len(work) > 0 && iter < 10000; iter++ {
 		b := work[0]
